@@ -425,6 +425,34 @@ func ruleC10Close(c *Ctx) {
 		cl := ops.Closes[0]
 		df, isDefer := cl.(*ssa.Defer)
 		producer := cl.Parent()
+		// `defer iter.closeResults()` where that method only closes the channel:
+		// the deferring stage is the producer
+		if !isDefer && len(producer.Blocks) == 1 {
+			var sites []*ssa.Defer
+			other := 0
+			for _, ci := range c.Callers[producer] {
+				if d, ok := ci.(*ssa.Defer); ok {
+					sites = append(sites, d)
+				} else {
+					other++
+				}
+			}
+			onlyClose := true
+			for _, in := range producer.Blocks[0].Instrs {
+				switch x := in.(type) {
+				case *ssa.Call:
+					if x != cl {
+						onlyClose = false
+					}
+				case *ssa.Send, *ssa.Go, *ssa.Defer, *ssa.Store, *ssa.MapUpdate:
+					onlyClose = false
+				}
+			}
+			if len(sites) == 1 && other == 0 && onlyClose {
+				df, isDefer = sites[0], true
+				producer = df.Parent()
+			}
+		}
 		// producer is a stage function of the iterator's pipeline and sends on that channel
 		sends := false
 		for _, s := range ops.Sends {
